@@ -12,7 +12,8 @@ or opened under another media type, was never opened as the manifest it also is 
 * phase 2 (`walk`): the work-list walk, defined by well-founded recursion on
   (number of (blob, class) pairs not yet opened, length of the work list) — no fuel;
 * phase 3 (`sweepStep`): the sweep with the grace / `inIndex` condition and the pruning of index entries;
-* phase 4: entries named in `inIndex` without a blob.
+* phase 4: entries named in `inIndex` without a blob, then (F41, `patches/F41-gc-child-records-without-content.diff`)
+  child records without a blob.
 
 Digests, media types, tags are numerals (0 = empty); a blob is what the two JSON decoders of the walk can see of it.
 -/
@@ -216,10 +217,14 @@ def marks (p : Policy) (ix : Index) (bs : List Blob) : Marks :=
 def pruneStep (bs : List Blob) (ix : Index) (g : Nat) : Index :=
   if (getBlob bs g).isNone ∧ g ≠ 0 then rmDesc ix { mt := 0, dig := g } else ix
 
+/-- `the same for child records` (F41): every child record, as listed after the two loops before, whose digest has no blob
+    in the blob list taken before the sweep is removed — its parent may not have been walked -/
+def pruneChildren (bs : List Blob) (ix : Index) : Index := (ix.children.map (·.dig)).foldl (pruneStep bs) ix
+
 def gc (p : Policy) (ix : Index) (bs : List Blob) : GCOut :=
   let m := marks p ix bs
   let sw := bs.foldl (sweepStep p m.seen m.inIdx) (ix, [])
-  { index := m.inIdx.foldl (pruneStep bs) sw.1, blobs := sw.2 }
+  { index := pruneChildren bs (m.inIdx.foldl (pruneStep bs) sw.1), blobs := sw.2 }
 
 /-- the blobs of the repository after the collection -/
 def gcBlobs (p : Policy) (ix : Index) (bs : List Blob) : List Blob := bs.filter (fun b => (gc p ix bs).blobs.contains b.dig)
